@@ -265,3 +265,26 @@ Fixpoint mon_tr (s : script) (v : bool) (b : bits) (t : list ev) : bool :=
       | None => mon_tr s v b' r
       end
   end.
+
+(* ---- histories: several installs on the same install directory, sharing its cache ----
+   All steps install the same bytes (digest D).  [c]: the cache holds D.  A step whose index
+   declares D finds it there (cache hit: only the download is skipped); a step fills the cache
+   when its trace writes it.  Everything else about a step is its own script - in particular
+   the verdict of the verifier configured for THAT install. *)
+Definition with_cache (s : script) (c : bool) : script :=
+  mkS (s_resolve s) (s_installed s) (c && s_digest_ok s) (s_download_ok s) (s_digest_ok s)
+      (s_allow_unsigned s) (s_pol s) (s_ulog_ok s) (s_has_sig s) (s_sig_ok s) (s_has_prov s) (s_prov_ok s)
+      (s_verifier s) (s_archive s) (s_validate s) (s_rename_ok s) (s_chmod_ok s) (s_manifest_ok s) (s_audit_ok s).
+
+Definition is_cache_write (e : ev) : bool := match e with EWrite LCache => true | _ => false end.
+
+Fixpoint hist_run (cap : N) (c : bool) (ss : list script) : list (script * outcome) :=
+  match ss with
+  | [] => []
+  | s :: r =>
+      let s' := with_cache s c in
+      let o := run cap s' in
+      (s', o) :: hist_run cap (c || existsb is_cache_write (fst o)) r
+  end.
+
+Definition is_verify_ev (e : ev) : bool := match e with EVerify => true | _ => false end.
